@@ -254,7 +254,7 @@ func (p *PX) componentOf(whole *Term, i int, fr *pxFrame, st *pxState) *Term {
 	switch whole.Name {
 	case "roval":
 		return p.roComponent(whole, i, fr, st)
-	case "struct":
+	case "struct", "array": // ("array": a local array of structs, pxlocalarray.go)
 		if i >= 0 && i < len(whole.Args) && !strings.HasPrefix(whole.Args[i].key, "zero:") {
 			return whole.Args[i]
 		}
